@@ -484,7 +484,7 @@ class FsIter(Contract):
         if st.ghost.get("last_iter") is result.t:
             return []        # call site: result() has assumed the clauses for fresh witnesses
         if "W1" not in st.ghost:
-            return [("ghost-witnesses-recorded", tm.FALSE)]
+            return [("ghost-witnesses-recorded", None)]
         return iter_post(self.F, result.t, st.ghost["W1"], st.ghost["W2"])
 
     def aux_lemmas(self, ex):
@@ -633,7 +633,7 @@ class EmbData(Contract):
 
     def ensures(self, ex, pre, st, a, result):
         if not isinstance(result, VDict):
-            return [("returns-a-dict", tm.FALSE)]
+            return [("returns-a-dict", None)]
         if st.ghost.get("last_data") is result:
             return []          # call site: result() has assumed the clauses for a fresh witness
         T = emb_listing(pre, a["self"])
@@ -749,7 +749,7 @@ class EmbGetItem(Contract):
             return [("returns-an-item", tm.FALSE)]
         D = self._D(st, a)        # after the call the mapping is cached in both variants
         if D is None:
-            return [("data-mapping-kept", tm.FALSE)]
+            return [("data-mapping-kept", None)]
         return [("the-item-filed-under-the-key", tm.eq(st.get(result, "ident").t, tm.select(D, a["item"].t))),
                 ("item-carries-the-key-as-its-id", tm.eq(st.get(result, "id").t, a["item"].t))]
 
@@ -890,7 +890,7 @@ class CombinedInit(Contract):
     def ensures(self, ex, pre, st, a, result):
         d = st.get(a["self"], "_data")
         if not isinstance(d, VDict):
-            return [("has-a-data-dict", tm.FALSE)]
+            return [("has-a-data-dict", None)]
         D = map_arr(st, d)
         s = tm.V("s", STR)
         return [("holds-nothing", tm.forall([s], tm.eq(tm.select(D, s), ABSENT))), ("inv_data", inv_data(D))]
@@ -964,11 +964,11 @@ class FsFiles(Contract):
 
     def ensures(self, ex, pre, st, a, result):
         if not isinstance(result, VList):
-            return [("a-list", tm.FALSE)]
+            return [("a-list", None)]
         items = st.get(result, "items")
         exts = pre.get(a["self"], "_extensions").items
         if len(items) != len(exts):
-            return [("one-pattern-per-extension", tm.FALSE)]
+            return [("one-pattern-per-extension", None)]
         return [("one-pattern-per-extension", tm.TRUE)] + [
             ("pattern-%d" % i, tm.eq(p.t, tm.concat("*.", e.t)) if isinstance(p, VT) else tm.FALSE) for i, (p, e) in enumerate(zip(items, exts))]
 
